@@ -10,6 +10,11 @@
 import Scico.Proofs.LinOps2
 import Scico.Proofs.LinOps3
 import Scico.Proofs.LinOps4
+import Scico.Proofs.LinOps5
+import Scico.Proofs.LinOps6
+import Scico.Proofs.LinOps7
+import Scico.Proofs.LinOps8
+import Scico.Proofs.LinOps9
 import Mathlib.Data.Complex.Basic
 import Mathlib.Tactic.NormNum
 
@@ -85,10 +90,12 @@ example : (List.range 3).map (vstackEval (α := Int) [(fun _ _ => 1, 1), (fun i 
 
 /-! ### circular convolution -/
 
-/-- signal-domain circular convolution with integer centre shift = the documented circulant -/
-theorem C04_circ (h : V K) (k n c : Nat) (hk : k ≤ n) (hn : 0 < n) (x : V K) (i : Nat) :
-    circEval h k n c x i = mulVec (circMatrix h k n c) n x i :=
-  circEval_eq_mulVec h k n c hk hn x i
+/-- signal-domain circular convolution with integer centre shift = the documented circulant of the filter
+    zero-padded — or, when the filter is longer than the axis (`k > n`), cropped, as `fftn(h, s=n)` does — to
+    the axis length: the sum runs over the first `min k n` taps.  Every filter length, every `n ≥ 1`. -/
+theorem C04_circ (h : V K) (k n c : Nat) (hn : 0 < n) (x : V K) (i : Nat) :
+    circEval h (min k n) n c x i = mulVec (circMatrix h k n c) n x i :=
+  circEval_crop_eq_mulVec h k n c hn x i
 
 /-- circulant structure: the matrix commutes with the cyclic shift -/
 theorem C04_circ_circulant (h : V K) (k n c : Nat) : ShiftInvariant (circMatrix h k n c) n :=
@@ -103,16 +110,24 @@ theorem C04_circ_from_operator (A : M K) (n d : Nat) (hA : ShiftInvariant A n) (
 /-- convolution theorem with the centre-shift phase: what `CircularConvolve._eval` computes —
     `ifft( fft(h, n) · exp(+2πi c f/n) · fft(x) )` — equals the signal-domain circular convolution with
     filter centre `c` (exact in any field with a primitive `n`-th root of unity `ζ = exp(−2πi/n)`;
-    for an integer `c` the three branches of the phase in the code all equal `ζ⁻¹^(c f)`). -/
+    for an integer `c` the three branches of the phase in the code all equal `ζ⁻¹^(c f)`: `C04_circ_phase_integer`;
+    a filter longer than the axis is cropped). -/
 theorem C04_circ_fft {F : Type} [Field F] {ζ : F} {n : Nat} (hζ : IsPrimitiveRoot ζ n) (hn : 0 < n)
-    (hnF : (n : F) ≠ 0) (h : V F) (k c : Nat) (hk : k ≤ n) (x : V F) (j : Nat) :
+    (hnF : (n : F) ≠ 0) (h : V F) (k c : Nat) (x : V F) (j : Nat) :
     dftInvCropEval ζ⁻¹ (1 / (n : F)) n
         (fun f => dftEval ζ 1 n n (padTo h k) f * ζ⁻¹ ^ (c * f) * dftEval ζ 1 n n x f) j
-      = circEval h k n c x j :=
-  circ_fft_eq hζ hn hnF h k c hk x j
+      = circEval h (min k n) n c x j :=
+  circ_fft_crop_eq hζ hn hnF h k c x j
 
 example : (List.range 4).map (circEval (α := Int) (fun m => [1, -1].getD m 0) 2 4 1 (fun j => [3, 5, 6, 10].getD j 0))
     = [2, 1, 4, -7] := by decide
+
+-- a filter longer than the axis is cropped: taps [1,-1,5] on n = 2 act as [1,-1]
+example : (List.range 2).map (circEval (α := Int) (fun m => [1, -1, 5].getD m 0) (min 3 2) 2 0 (fun j => [3, 5].getD j 0))
+    = [-2, 2] := by decide
+-- shift invariance is satisfiable by non-constant matrices (hypothesis of `C04_circ_from_operator`)
+example : ShiftInvariant (fun i j : Nat => if (i + 1) % 3 = j then (1 : Int) else 0) 3 := by
+  intro i j hi hj; interval_cases i <;> interval_cases j <;> decide
 
 /-! ### linear convolution and its output modes -/
 
@@ -222,46 +237,67 @@ example : ∀ p : Nat, p < 2 → (0 : Int) ≤ (fun p : Nat => (p : Int)) p ∧ 
 
 /-! ### DFT -/
 
-/-- constructor bookkeeping of `DFT(input_shape, axes, axes_shape)`: output shape is the input shape
-    with `axes_shape[k]` on axis `axes[k]` and unchanged elsewhere; `inv_axes_shape` restores the input
-    sizes, so `inv` returns an array of the input shape. -/
-theorem C04_dft_shape (inShape ax s : List Nat) (hlen : ax.length = s.length) (hnd : ax.Nodup)
-    (hax : ∀ a ∈ ax, a < inShape.length) :
-    ∃ out, dftInit ⟨inShape, some ax, some s⟩ = some (some ax, out, some (ax.map (fun i => inShape.getD i 0)))
+/-- constructor bookkeeping of `DFT(input_shape, axes, axes_shape)` for Python axes (negative values count
+    from the end; `pyIx` is the list position they address): output shape is the input shape with
+    `axes_shape[k]` on axis `axes[k]` and unchanged elsewhere; `inv_axes_shape` restores the input sizes, so
+    `inv` returns an array of the input shape. -/
+theorem C04_dft_shape (inShape : List Nat) (ax : List Int) (s : List Nat) (hlen : ax.length = s.length)
+    (hax : ∀ a ∈ ax, -(inShape.length : Int) ≤ a ∧ a < inShape.length)
+    (hnd : (ax.map (pyIx inShape.length)).Nodup) :
+    ∃ out, dftInit ⟨inShape, some ax, some s⟩
+        = some (some ax, out, some (ax.map (fun i => inShape.getD (pyIx inShape.length i) 0)))
       ∧ out.length = inShape.length
-      ∧ (∀ k (hk : k < ax.length), out[ax[k]]? = some (s[k]'(hlen ▸ hk)))
-      ∧ (∀ i, i ∉ ax → out[i]? = inShape[i]?)
-      ∧ dftInvShape (some ax) out (some (ax.map (fun i => inShape.getD i 0))) = inShape := by
-  refine ⟨setMany inShape (ax.zip s), ?_, setMany_length _ _, ?_, ?_, ?_⟩
+      ∧ (∀ k (hk : k < ax.length), out[pyIx inShape.length ax[k]]? = some (s[k]'(hlen ▸ hk)))
+      ∧ (∀ i, i ∉ ax.map (pyIx inShape.length) → out[i]? = inShape[i]?)
+      ∧ dftInvShape (some ax) out (some (ax.map (fun i => inShape.getD (pyIx inShape.length i) 0))) = inShape := by
+  have hlen' : (ax.map (pyIx inShape.length)).length = s.length := by simpa using hlen
+  have hpy : ∀ a ∈ ax, pyIx inShape.length a < inShape.length := by
+    intro a ha
+    obtain ⟨h1, h2⟩ := hax a ha
+    unfold pyIx; split <;> omega
+  refine ⟨setMany inShape ((ax.map (pyIx inShape.length)).zip s), ?_, setMany_length _ _, ?_, ?_, ?_⟩
   · simp [dftInit, hlen, setMany]
+    exact hax
   · intro k hk
     have hk' : k < s.length := hlen ▸ hk
     apply setMany_getElem?_of_mem
     · rw [List.map_fst_zip (by omega)]; exact hnd
     · exact List.mem_iff_getElem.mpr ⟨k, by simp [hk, hk'], by simp⟩
-    · exact hax _ (List.getElem_mem hk)
+    · exact hpy _ (List.getElem_mem hk)
   · intro i hi
     apply setMany_getElem?_of_not_mem
     rw [List.map_fst_zip (by omega)]; exact hi
   · unfold dftInvShape
-    apply setMany_restore inShape _ ax (setMany_length _ _)
+    have e : ax.map (fun i => inShape.getD (pyIx inShape.length i) 0)
+        = (ax.map (pyIx inShape.length)).map (fun i => inShape.getD i 0) := by simp [List.map_map, Function.comp_def]
+    rw [e]
+    have hl : (setMany inShape ((ax.map (pyIx inShape.length)).zip s)).length = inShape.length := setMany_length _ _
+    simp only [hl]
+    apply setMany_restore inShape _ (ax.map (pyIx inShape.length)) hl
     intro i hi
     apply setMany_getElem?_of_not_mem
     rw [List.map_fst_zip (by omega)]; exact hi
 
-/-- `axes=None` with `axes_shape` of length `r`: the transform acts on the trailing `r` axes -/
+/-- `axes=None` with `axes_shape` of length `r ≤ ndim`: the transform acts on the trailing `r` axes; more
+    trailing axes than the array has is an error (the code builds negative axes that `fftn` rejects) -/
 theorem C04_dft_default_axes (inShape s : List Nat) :
-    ∃ out inv, dftInit ⟨inShape, none, some s⟩
-      = some (some ((List.range s.length).map (fun k => inShape.length - s.length + k)), out, inv) := by
-  simp [dftInit]
+    (s.length ≤ inShape.length → ∃ out inv, dftInit ⟨inShape, none, some s⟩
+      = some (some ((List.range s.length).map (fun k => ((inShape.length - s.length + k : Nat) : Int))), out, inv))
+    ∧ (inShape.length < s.length → dftInit ⟨inShape, none, some s⟩ = none) := by
+  constructor
+  · intro h; simp [dftInit, Nat.not_lt.mpr h]
+  · intro h; simp [dftInit, h]
 
 /-- without `axes_shape` nothing changes and `inv` is the plain inverse transform -/
-theorem C04_dft_no_axes_shape (inShape : List Nat) (ax : Option (List Nat)) :
+theorem C04_dft_no_axes_shape (inShape : List Nat) (ax : Option (List Int)) :
     dftInit ⟨inShape, ax, none⟩ = some (ax, inShape, none) := by
   cases ax <;> simp [dftInit]
 
 example : dftInit ⟨[4, 5, 6], some [0, 2], some [8, 3]⟩ = some (some [0, 2], [8, 5, 3], some [4, 6]) := by decide
 example : dftInit ⟨[4, 5, 6], none, some [7]⟩ = some (some [2], [4, 5, 7], some [6]) := by decide
+-- negative axes: `DFT((4,5,6), axes=(-1, 0), axes_shape=(3, 8))`
+example : dftInit ⟨[4, 5, 6], some [-1, 0], some [3, 8]⟩ = some (some [-1, 0], [8, 5, 3], some [6, 4]) := by decide
+example : dftInit ⟨[4, 5], some [-3], some [3]⟩ = none := by decide
 
 section Field
 variable {F : Type} [Field F]
@@ -301,7 +337,9 @@ theorem C04_dft_inv_padded_fails :
       (fun j => if j = 1 then (1 : ℂ) else 0) 0 := by
   simp [dftInvEval, dftEval, sumTo, dftEval.npow, Complex.ext_iff]
 
--- non-vacuity of the hypotheses of the inversion theorems: `-1` is a primitive 2nd root of unity in ℚ
+-- non-vacuity of the hypotheses of the inversion theorems: the three normalisations at n = 2 over ℚ (ortho needs √2: ℝ/ℂ)
+example : (1 : ℚ) * (1 / 2) * ((2 : Nat) : ℚ) = 1 ∧ (1 / 2 : ℚ) * 1 * ((2 : Nat) : ℚ) = 1 := by norm_num
+-- `-1` is a primitive 2nd root of unity in ℚ
 example : IsPrimitiveRoot (-1 : ℚ) 2 := by
   rw [IsPrimitiveRoot.iff_def]
   refine ⟨by norm_num, fun l hl => ?_⟩
@@ -341,5 +379,263 @@ theorem C04_freq_grid_pinned_differs :
 example : (List.range 4).map (@fftfreq ℚ ⟨Nat.cast⟩ _ _ _ 4 (1 / 2)) = [0, 1 / 2, -1, -1 / 2] := by
   simp [fftfreq, List.range, List.range.loop]
   norm_num
+
+
+/-! ## Round 2: extensions -/
+
+/-! ### finite differences from the constructor arguments -/
+
+/-- `FiniteDifference(input_shape, axes=…)` in terms of the constructor arguments: for every shape with
+    non-empty axes and every list of (normalised) axes inside it, the operator is the block column of the
+    banded matrices lifted to the listed axes (`axisSpec shape a = (Π before, shape[a], Π after)`). -/
+theorem C04_fd_shape_axes (c : FDCfg) (shape : List Nat) (axes : List Nat) (hpos : ∀ n ∈ shape, 0 < n)
+    (hax : ∀ a ∈ axes, a < shape.length) (x : V K) (i : Nat)
+    (hi : i < fdNdRows c (axes.map (axisSpec shape))) :
+    fdNdEval c (axes.map (axisSpec shape)) x i
+      = mulVec (fdNdMatrix c (axes.map (axisSpec shape))) (prodL shape) x i :=
+  fdNd_shape_axes c shape axes hpos hax x i hi
+
+example : [0, 1].map (axisSpec [2, 3]) = [(1, 2, 3), (2, 3, 1)] := by decide
+-- non-vacuity of the hypotheses of `C04_fd_multi_axis`: shape (2,3), both axes
+example : ∀ s ∈ [(1, 2, 3), (2, 3, 1)], s.1 * s.2.1 * s.2.2 = 6 ∧ 0 < s.2.1 := by decide
+-- the class docstring example `FiniteDifference((2, 3))` on `[[1,2,4],[0,4,1]]`: `[-1,2,-3]` then `[[1,2],[4,-3]]`
+example : (List.range 7).map (fdNdEval (α := Int) ⟨.no, .no, false⟩ ([0, 1].map (axisSpec [2, 3]))
+    (fun j => [1, 2, 4, 0, 4, 1].getD j 0)) = [-1, 2, -3, 1, 2, 4, -3] := by decide
+
+/-! ### circular convolution: any spectrum, the constructor's shift phases, N dimensions -/
+
+/-- spectral-multiplier form of the convolution theorem: `ifft(H · fft(x))` — `CircularConvolve._eval` for ANY
+    `h_dft` (a filter passed with `h_is_dft=True`, or `fft(h, n)` times the phases of a fractional
+    `h_center`) — is the circular convolution of `x` with the impulse response `g = ifft(H)`. -/
+theorem C04_circ_spectrum {F : Type} [Field F] {ζ : F} {n : Nat} (hζ : IsPrimitiveRoot ζ n) (hn : 0 < n) (s : F)
+    (H x : V F) (j : Nat) :
+    circSpecEval ζ ζ⁻¹ s n H x j = mulVec (circMatrix (dftInvCropEval ζ⁻¹ s n H) n n 0) n x j :=
+  circSpec_eq hζ hn s H x j
+
+/-- the phases `CircularConvolve.__init__` multiplies into `h_dft` (three `np.select` branches: below, at and
+    above the Nyquist bin), for an INTEGER centre `c` (negative centres included), all equal `ζ^(−c f)` with
+    `ζ = E(−1/s) = exp(−2πi/s)`, which is `ζ⁻¹^((c mod s)·f)`: the phase of `C04_circ_fft` with the centre
+    reduced modulo the axis length.  `E t = exp(2πi t)`, `C t = cos(2π t)` enter only through `ExpContract`
+    (`E(a+b) = E a · E b`, `E 1 = 1`, `C t = (E t + E(−t))/2`). -/
+theorem C04_circ_phase_integer {F Q : Type} [Field F] [Field Q] [CharZero Q] {E C : Q → F} (h : ExpContract E C)
+    (c : Int) (s f : Nat) (hs : 0 < s) (hf : f < s) :
+    shiftPhase E C (fun m => (m : Q)) (-(c : Q)) s f = E (-(1 / (s : Q))) ^ (-(c * f))
+    ∧ E (-(1 / (s : Q))) ^ (-(c * f)) = (E (-(1 / (s : Q))))⁻¹ ^ ((c % s).toNat * f) :=
+  ⟨shiftPhase_int h c s f hs hf, root_zpow_mod (h.root_pow s hs) hs c f⟩
+
+/-- Hermitian symmetry of the phases for ANY (fractional) centre: `phase(s − f) = conj(phase(f))`, so the
+    shifted filter of a real filter is real — this is why the Nyquist bin carries `cos(kπ)`. -/
+theorem C04_circ_phase_hermitian {F Q : Type} [Field F] [StarRing F] [Field Q] {E C : Q → F}
+    (hE : ∀ t, star (E t) = E (-t)) (hC : ∀ t, star (C t) = C t) (k : Q) (s f : Nat) (hf0 : 0 < f) (hf : f < s) :
+    shiftPhase E C (fun m => (m : Q)) k s (s - f) = star (shiftPhase E C (fun m => (m : Q)) k s f) :=
+  shiftPhase_hermitian hE hC k s f hf0 hf
+
+-- non-vacuity of `ExpContract`: over ℚ, `E = 1`, `C = 1` (the trivial character); the contract is the
+-- exponential law, satisfied by `t ↦ exp(2πi t)`, `t ↦ cos(2πt)` over ℂ
+example : ExpContract (fun _ : ℚ => (1 : ℚ)) (fun _ => 1) := ⟨by simp, rfl, by simp, by norm_num⟩
+
+/-- N-d convolution theorem: `ifftn( fftn(h, s=dims) · Π_a ζ_a⁻¹^(c_a f_a) · fftn(x) )` — `CircularConvolve._eval`
+    over `ndims = dims.length` axes with integer centres — equals the signal-domain N-d circular convolution
+    `y[i] = Σ_m h[m] · x[(i + c − m) mod dims]`; any number of axes, any sizes `ks ≤ dims`. -/
+theorem C04_circ_nd_fft {F : Type} [Field F] (dims : List Nat) (ws : List F) (ks cs : List Nat) (s : F)
+    (h x : V F) (p : Nat) (hr : Roots dims ws) (hf : FitsIn ks dims cs) (hs : s * (prodL dims : F) = 1)
+    (hp : p < prodL dims) :
+    circNdSpecEval dims ws (ws.map (·⁻¹)) s
+        (fun f => dftNd dims ws (padNd ks dims h) f * phaseNd dims (ws.map (·⁻¹)) cs f) x p
+      = circNd ks dims cs h x p :=
+  circNd_fft_eq dims ws ks cs s h x p hr hf hs hp
+
+/-- N-d spectral-multiplier form: for ANY N-d spectrum `H` (filter in the DFT domain, fractional centres on
+    several axes), `ifftn(H · fftn(x))[p] = Σ_q ifftn(H)[(p − q) mod dims] · x[q]`. -/
+theorem C04_circ_nd_spectrum {F : Type} [Field F] (dims : List Nat) (ws : List F) (s : F) (H x : V F) (p : Nat)
+    (hr : Roots dims ws) (hp : p < prodL dims) :
+    circNdSpecEval dims ws (ws.map (·⁻¹)) s H x p
+      = mulVec (fun p q => s * dftNd dims (ws.map (·⁻¹)) H (shiftIdx dims (List.replicate dims.length 0) p q))
+          (prodL dims) x p := by
+  unfold circNdSpecEval mulVec
+  rw [circNdSpec_raw dims ws H x p hr hp, sumTo_eq_sum, Finset.mul_sum]
+  exact Finset.sum_congr rfl (fun q _ => by ring)
+
+/-- the N-d circular convolution is multiplication by the documented N-d circulant
+    `H[i, j] = h_pad[(i + c − j) mod dims]`; in multi-index form (`ravel`) the flat index arithmetic is exactly
+    that: `shiftIdx` is `(i + c − j) mod dims` axis by axis and `padNd` is `h` inside the filter shape, `0` outside. -/
+theorem C04_circ_nd (ks dims cs : List Nat) (h x : V K) (p : Nat) (hpos : ∀ n ∈ dims, 0 < n) (hf : FitsIn ks dims cs) :
+    circNd ks dims cs h x p = mulVec (circMatrixNd ks dims cs h) (prodL dims) x p :=
+  circNd_eq_mulVec ks dims cs h x p hpos hf
+
+theorem C04_circ_nd_index (ks dims cs i j : List Nat) (h : V K) (hi : InBounds dims i) (hj : InBounds dims j)
+    (hl : ks.length = dims.length) :
+    shiftIdx dims cs (ravel dims i) (ravel dims j) = ravel dims (shiftMI dims cs i j)
+    ∧ (InBounds ks i → padNd ks dims h (ravel dims i) = h (ravel ks i))
+    ∧ (¬ InBounds ks i → padNd ks dims h (ravel dims i) = 0) :=
+  ⟨shiftIdx_ravel dims cs i j hi hj, padNd_ravel_in ks dims i h hi, padNd_ravel_out ks dims i h hi hl⟩
+
+-- non-vacuity: ℚ has primitive 2nd and 1st roots; a 2×2 filter on a (2,2) image
+example : Roots [2, 1] [(-1 : ℚ), 1] := by
+  refine ⟨?_, by norm_num, IsPrimitiveRoot.one, by norm_num, trivial⟩
+  rw [IsPrimitiveRoot.iff_def]
+  refine ⟨by norm_num, fun l hl => ?_⟩
+  rcases Nat.even_or_odd l with h | h
+  · exact even_iff_two_dvd.mp h
+  · rw [h.neg_one_pow] at hl; norm_num at hl
+example : FitsIn [2, 2] [3, 4] [1, 0] := by simp [FitsIn]
+-- a (2,2) filter on a (2,3) image, centre (1,0): direct evaluation of the N-d definition
+example : (List.range 6).map (circNd (α := Int) [2, 2] [2, 3] [1, 0] (fun m => [1, 2, 3, 4].getD m 0)
+    (fun j => [1, 0, 0, 0, 0, 0].getD j 0)) = [3, 4, 0, 1, 2, 0] := by decide
+example : shiftMI [3, 4] [1, 0] [0, 1] [2, 3] = [2, 2] := by decide
+
+/-! ### N-d DFT inversion -/
+
+/-- N-d DFT over all axes of an array of any shape: `inv ∘ eval = id` for every normalisation
+    (`s · s' · Π dims = 1`) when the transform size equals the input size. -/
+theorem C04_dft_nd_inv {F : Type} [Field F] (dims : List Nat) (ws : List F) (s s' : F) (x : V F) (p : Nat)
+    (hr : Roots dims ws) (hs : s * s' * (prodL dims : F) = 1) (hp : p < prodL dims) :
+    s' * dftNd dims (ws.map (·⁻¹)) (fun f => s * dftNd dims ws x f) p = x p := by
+  have e := dftNd_lin (Finset.range 1) dims (ws.map (·⁻¹)) (fun _ => s) (fun _ => dftNd dims ws x) p
+  simp only [Finset.sum_range_one] at e
+  rw [e, dftNd_inv_raw dims ws x p hr hp]
+  calc s' * (s * ((prodL dims : F) * x p)) = (s * s' * (prodL dims : F)) * x p := by ring
+    _ = x p := by rw [hs, one_mul]
+
+/-! ### N-d linear convolution -/
+
+/-- N-d `Convolve` / `ConvolveByX`: the tap-sum `y[i] = Σ_m h[m] · x[i + start − m]` on the window of a mode is
+    multiplication by the N-d Toeplitz matrix, for any number of axes; the window of each mode is the 1-d
+    one axis by axis (`convStarts`, `convLens`; ranges by `C04_conv_ranges`). -/
+theorem C04_conv_nd (ss os ks ds : List Nat) (h x : V K) (p : Nat) (hs : ConvShapes ss os ks ds) :
+    convNdW ss os ks ds h x p = mulVec (convMatrixNdW ss os ks ds h) (prodL ds) x p :=
+  convNdW_eq_mulVec ss os ks ds h x p hs
+
+example : ConvShapes (convStarts .same [3, 4] [2, 2]) (convLens .same [3, 4] [2, 2]) [2, 2] [3, 4] := by
+  simp [ConvShapes, convStarts, convLens]
+example : convStarts .valid [3, 4] [2, 2] = [1, 1] ∧ convLens .valid [3, 4] [2, 2] = [2, 3] := by decide
+-- `convolve([[1,2],[3,4]], [[1,1],[1,1]], 'full')` = [[1,3,2],[4,10,6],[3,7,4]]
+example : (List.range 9).map (convNdW (α := Int) (convStarts .full [2, 2] [2, 2]) (convLens .full [2, 2] [2, 2]) [2, 2] [2, 2]
+    (fun _ => 1) (fun j => [1, 2, 3, 4].getD j 0)) = [1, 3, 2, 4, 10, 6, 3, 7, 4] := by decide
+
+/-! ### non-constant pad modes -/
+
+/-- `Pad` with mode `edge` / `wrap` / `reflect` / `symmetric` on one axis is a gather: every padded position
+    reads a position inside the array (so the operator is linear with one `1` per matrix row), the interior
+    is copied, and `Crop` of the same widths is a left inverse. -/
+theorem C04_pad_modes (mode : PadMode) (lo n : Nat) (hn : 0 < n) (x : V K) (i : Nat) :
+    (0 ≤ padSrc mode n ((i : Int) - lo) ∧ padSrc mode n ((i : Int) - lo) < n)
+    ∧ padModeEval mode lo n x i = mulVec (padModeMatrix mode lo n) n x i
+    ∧ (i < n → cropEval lo (padModeEval mode lo n x) i = x i) :=
+  ⟨padSrc_range mode n hn _, padModeEval_eq_mulVec mode lo n hn x i, crop_padMode mode lo n x i⟩
+
+/-- the documented meaning of each mode, for every offset `t ∈ ℤ` relative to the array (any pad width):
+    `edge` continues with the first / last value, `wrap` has period `n`, `reflect` mirrors about the first and
+    the last sample, `symmetric` about the two array edges. -/
+theorem C04_pad_modes_documented (n : Nat) (hn : 0 < n) (t : Int) :
+    ((t < 0 → padSrc .edge n t = 0) ∧ ((n : Int) ≤ t → padSrc .edge n t = n - 1))
+    ∧ padSrc .wrap n (t + n) = padSrc .wrap n t
+    ∧ (2 ≤ n → padSrc .reflect n (-t) = padSrc .reflect n t
+        ∧ padSrc .reflect n ((n : Int) - 1 + t) = padSrc .reflect n ((n : Int) - 1 - t))
+    ∧ (padSrc .symmetric n (-1 - t) = padSrc .symmetric n t
+        ∧ padSrc .symmetric n ((n : Int) + t) = padSrc .symmetric n ((n : Int) - 1 - t)) :=
+  ⟨padSrc_edge n t, padSrc_wrap n t, fun h => padSrc_reflect n h t, padSrc_symmetric n hn t⟩
+
+/-- mode `mean`: the padded positions carry the mean of the axis (matrix rows `1/n … 1/n`) -/
+theorem C04_pad_mean {F : Type} [Field F] (lo n : Nat) (x : V F) (i : Nat) :
+    padMeanEval (fun m => (m : F)) lo n x i = mulVec (padMeanMatrix (fun m => (m : F)) lo n) n x i :=
+  padMeanEval_eq_mulVec lo n x i
+
+-- numpy: pad([1,2,3], (2,3), mode) for the four modes
+example : (List.range 8).map (padModeEval .reflect 2 3 (fun j => [1, 2, 3].getD j 0)) = [3, 2, 1, 2, 3, 2, 1, 2] := by decide
+example : (List.range 8).map (padModeEval .symmetric 2 3 (fun j => [1, 2, 3].getD j 0)) = [2, 1, 1, 2, 3, 3, 2, 1] := by decide
+example : (List.range 8).map (padModeEval .wrap 2 3 (fun j => [1, 2, 3].getD j 0)) = [2, 3, 1, 2, 3, 1, 2, 3] := by decide
+example : (List.range 8).map (padModeEval .edge 2 3 (fun j => [1, 2, 3].getD j 0)) = [1, 1, 1, 2, 3, 3, 3, 3] := by decide
+
+/-! ### projected gradients -/
+
+/-- `ProjectedGradient._eval` for one local axis: `sum(c[m] * grad[m])` over the stacked differences
+    `grad[m] = G_m x` is multiplication by `Σ_m diag(c_m) · G_m` — the inner product of the Cartesian gradient
+    with the local axis at every position (`G_m` = lifted `C04_fd` matrix with `append=0`, or `C04_cdiff`). -/
+theorem C04_proj_grad (n : Nat) (x : V K) (i : Nat) (l : List (V K × M K)) :
+    projEval (l.map (fun cG => (cG.1, mulVec cG.2 n x))) i = mulVec (projMatrix l) n x i :=
+  projEval_eq_mulVec n x i l
+
+/-- `cdiff=True`: `snp.gradient` (central differences inside, one-sided at the two ends) as a matrix, `n ≥ 2` -/
+theorem C04_cdiff {F : Type} [Field F] (n : Nat) (hn : 2 ≤ n) (x : V F) (i : Nat) (hi : i < n) :
+    cdiffEval (2 : F) n x i = mulVec (cdiffMatrix (2 : F) n) n x i :=
+  cdiffEval_eq_mulVec n hn x i hi
+
+/-- the documented local axes of `PolarGradient` (`angular = (−cos θ, sin θ)`, `radial = (sin θ, cos θ)`,
+    `θ = arctan2(g0, g1)`) form an orthonormal frame whenever `sin² + cos² = 1`: the projected gradient is a
+    rotation of the Cartesian gradient (norm preserved, Cartesian components recovered); with
+    `sin θ = p0/r`, `cos θ = p1/r` the radial component is the derivative along the position vector. -/
+theorem C04_polar_frame {F : Type} [Field F] (s c g0 g1 : F) (h : s * s + c * c = 1) :
+    (-c * g0 + s * g1) * (-c * g0 + s * g1) + (s * g0 + c * g1) * (s * g0 + c * g1) = g0 * g0 + g1 * g1
+    ∧ g0 = -c * (-c * g0 + s * g1) + s * (s * g0 + c * g1)
+    ∧ g1 = s * (-c * g0 + s * g1) + c * (s * g0 + c * g1)
+    ∧ ∀ p0 p1 r : F, r ≠ 0 → (p0 / r) * g0 + (p1 / r) * g1 = (p0 * g0 + p1 * g1) / r :=
+  ⟨(polar_rotation s c g0 g1 h).1, (polar_rotation s c g0 g1 h).2.1, (polar_rotation s c g0 g1 h).2.2,
+   fun p0 p1 r hr => polar_radial p0 p1 r g0 g1 hr⟩
+
+example : (List.range 4).map (cdiffEval (α := ℚ) 2 4 (fun j => [1, 4, 9, 16].getD j 0)) = [3, 4, 6, 7] := by
+  simp [cdiffEval, List.range, List.range.loop]; norm_num
+example : ((3 : ℚ) / 5) * (3 / 5) + (4 / 5) * (4 / 5) = 1 := by norm_num
+
+/-! ### X-ray views at the documented angles -/
+
+section XRayAngles
+variable {F : Type} [Field F] [LinearOrder F] [IsStrictOrderedRing F]
+local instance : HasNat F := ⟨Nat.cast⟩
+local instance : Scico.HasAbs F := ⟨abs⟩
+
+/-- "an angle of 0 corresponds to summing rows, π/2 to summing columns": from the index / weight formulas of
+    `_calc_weights`, whenever `sin(angle) = 0` the projected position does not depend on the column (resp. on
+    the row when `cos(angle) = 0`), and a view whose bins and weights depend on the row (column) only is the
+    1-d footprint operator applied to the row (column) sums of the image — for every pixel size, offset and
+    detector. -/
+theorem C04_xray_rows_cols (g : XGeom F) (n0 n1 : Nat) (I : Nat → Int) (w x : V F) (ny b : Nat) :
+    (g.u1 = 0 → ∀ i j, g.px i j = g.px i 0) ∧ (g.u0 = 0 → ∀ i j, g.px i j = g.px 0 j)
+    ∧ (∀ (I0 : Nat → Int) (w0 : V F), (∀ i j, i < n0 → j < n1 → I (i * n1 + j) = I0 i) →
+        (∀ i j, i < n0 → j < n1 → w (i * n1 + j) = w0 i) →
+        xrayProject (n0 * n1) I w x ny b = xrayProject n0 I0 w0 (rowSums n1 x) ny b)
+    ∧ (∀ (I1 : Nat → Int) (w1 : V F), (∀ i j, i < n0 → j < n1 → I (i * n1 + j) = I1 j) →
+        (∀ i j, i < n0 → j < n1 → w (i * n1 + j) = w1 j) →
+        xrayProject (n0 * n1) I w x ny b = xrayProject n1 I1 w1 (colSums n0 n1 x) ny b) :=
+  ⟨fun h i j => xray_px_u1_zero g h i j, fun h i j => xray_px_u0_zero g h i j,
+   fun I0 w0 hI hw => xrayProject_rows n0 n1 I w x I0 w0 ny hI hw b,
+   fun I1 w1 hI hw => xrayProject_cols n0 n1 I w x I1 w1 ny hI hw b⟩
+
+/-- angle 0 with unit pixels whose edges lie on bin edges (`x0[0] − y0 = d ∈ ℕ`): the view IS the vector of
+    row sums placed at bins `d, d+1, …` (`floor` enters only through `floor(z) = z` for integers `z`). -/
+theorem C04_xray_angle0 (g : XGeom F) (fl : F → Int) (hfl : ∀ z : Int, fl (z : F) = z) (d n0 n1 ny : Nat)
+    (hu0 : g.u0 = 1) (hu1 : g.u1 = 0) (hdx : g.dxa = 1) (hd : g.x0a - g.y0 = d) (x : V F) (b : Nat) (hb : b < ny) :
+    xrayProject (n0 * n1) (fun p => g.ind fl (p / n1) (p % n1)) (fun p => g.wt fl (fun z => (z : F)) (p / n1) (p % n1)) x ny b
+      = if d ≤ b ∧ b < d + n0 then rowSums n1 x (b - d) else 0 := by
+  have hI : ∀ i j, i < n0 → j < n1 → (fun p => g.ind fl (p / n1) (p % n1)) (i * n1 + j) = (d : Int) + i := by
+    intro i j _ hj
+    have hn1 : 0 < n1 := by omega
+    simp only [idx_div hn1 i j hj]
+    exact (xray_angle0_weights g fl hfl d hu0 hu1 hdx hd _ _).1
+  rw [xrayProject_rows n0 n1 (fun p => g.ind fl (p / n1) (p % n1))
+    (fun p => g.wt fl (fun z => (z : F)) (p / n1) (p % n1)) x (fun i => (d : Int) + i) (fun _ => 1) ny hI
+    (fun i j _ _ => (xray_angle0_weights g fl hfl d hu0 hu1 hdx hd _ _).2) b]
+  exact xrayProject_shift n0 d _ ny b hb
+
+/-- angle π/2 (`u = (0, 1)`), unit pixels along the second axis, aligned edges: the view is the vector of
+    column sums placed at bins `d, d+1, …`. -/
+theorem C04_xray_angle90 (g : XGeom F) (fl : F → Int) (hfl : ∀ z : Int, fl (z : F) = z) (d n0 n1 ny : Nat)
+    (hu0 : g.u0 = 0) (hu1 : g.u1 = 1) (hdx : g.dxb = 1) (hd : g.x0b - g.y0 = d) (x : V F) (b : Nat) (hb : b < ny) :
+    xrayProject (n0 * n1) (fun p => g.ind fl (p / n1) (p % n1)) (fun p => g.wt fl (fun z => (z : F)) (p / n1) (p % n1)) x ny b
+      = if d ≤ b ∧ b < d + n1 then colSums n0 n1 x (b - d) else 0 := by
+  have hI : ∀ i j, i < n0 → j < n1 → (fun p => g.ind fl (p / n1) (p % n1)) (i * n1 + j) = (d : Int) + j := by
+    intro i j _ hj
+    simp only [idx_mod i j hj]
+    exact (xray_angle90_weights g fl hfl d hu0 hu1 hdx hd _ _).1
+  rw [xrayProject_cols n0 n1 (fun p => g.ind fl (p / n1) (p % n1))
+    (fun p => g.wt fl (fun z => (z : F)) (p / n1) (p % n1)) x (fun j => (d : Int) + j) (fun _ => 1) ny hI
+    (fun i j _ _ => (xray_angle90_weights g fl hfl d hu0 hu1 hdx hd _ _).2) b]
+  exact xrayProject_shift n1 d _ ny b hb
+
+end XRayAngles
+
+-- non-vacuity: the default geometry of a (2,3) image with `dx = 1`, `det_count = 4`: `x0 = (−1, −3/2)`,
+-- `y0 = −2`, so `x0[0] − y0 = 1 ∈ ℕ`; over ℚ with `floor` = `Rat.floor`
+example : ∀ z : Int, Rat.floor (z : ℚ) = z := fun z => Rat.floor_intCast z
 
 end Scico.Props.C04
